@@ -511,9 +511,9 @@ class Exec:
                         # the model is only valid while the exact result stays in float's normal range: make that an obligation
                         FMAX = z3.RealVal(fractions.Fraction(0xffffff, 1) * fractions.Fraction(2) ** 104)
                         FMIN = z3.RealVal(fractions.Fraction(511, 512) * fractions.Fraction(1, 2 ** 126))
-                        self.cur_checks.append(("RANGE:float intermediate overflows (|v| > FLT_MAX) in %s" % op, z3.And(r <= FMAX, r >= -FMAX)))
+                        self.cur_checks.append(("RANGE:float intermediate overflows (|v| > FLT_MAX) in %s" % op, z3.And(r <= FMAX, r >= -FMAX), z3.Or(r > 16 * FMAX, r < -16 * FMAX)))
                         if not os.environ.get("VP_NO_UNDERFLOW_CHECK"):
-                            self.cur_checks.append(("RANGE:float intermediate underflows (0 < |v| < 2^-126) in %s" % op, z3.Or(r == 0, r >= FMIN, r <= -FMIN)))
+                            self.cur_checks.append(("RANGE:float intermediate underflows (0 < |v| < 2^-126) in %s" % op, z3.Or(r == 0, r >= FMIN, r <= -FMIN), z3.And(r != 0, r < FMIN / 16, r > -FMIN / 16)))
                     r = r * (1 + d)
                 return r
         elif self.mode == "UF":
@@ -1135,11 +1135,17 @@ class Exec:
         return None
 
     def flush_checks(self, st):
-        for (label, ok) in self.cur_checks:
+        for item in self.cur_checks:
+            label, ok = item[0], item[1]
             oks = z3.simplify(ok)
             if z3.is_true(oks):
                 continue
-            self.oblig.append(dict(label=label, pc=list(st.pc), cond=ok, kind="UB"))
+            ob = dict(label=label, pc=list(st.pc), cond=ok, kind="UB")
+            if len(item) > 2:
+                # a violation with a margin: preferred as the counterexample because it survives the difference between the
+                # contract of an approximate instruction (rcpss/rsqrtss +-1.5*2^-12) and the value the hardware really returns
+                ob["robust"] = item[2]
+            self.oblig.append(ob)
         self.cur_checks = []
 
     def strlit(self, st, p):
@@ -1467,6 +1473,11 @@ def check_entry(ll_path, entry, mode="FP", int_mode="BV", timeout_ms=60000, appr
         rec = dict(label=ob["label"], kind=ob["kind"], status="holds" if r == z3.unsat else "violated" if r == z3.sat else "unknown")
         if r == z3.sat:
             m = s.model()
+            if ob.get("robust") is not None:
+                s.add(ob["robust"])
+                if s.check() == z3.sat:
+                    m = s.model()
+                nq += 1
             rec["inputs"] = [model_value_bits(m, k, e, mode) for (k, e) in ex.inputs]
             rec["model"] = {str(e): str(m.eval(e, model_completion=True)) for (k, e) in ex.inputs[:24]}
         out["obligations"].append(rec)
